@@ -186,6 +186,13 @@ def Impl.vmSelect (frames : List (Frame β α)) (nconfig : Nat) : Except String 
 
 end Select
 
+/-- `np.save(a, b)` as called in the source (`args` = the unparsed arguments, `ret` = the name that is returned):
+numpy takes the FILE first; `.ok b` = a file is written and `b` says whether it holds the returned array -/
+def Impl.saveOutcome (args : List String) (ret : String) : Except String Bool :=
+  match args with
+  | [f, x] => if f = "outputfile" then .ok (x == ret) else .error "TypeError: np.save(file, arr): not a file name"
+  | _ => .error "TypeError: np.save arguments"
+
 section VM
 variable {α : Type} [Add α] [Sub α] [Mul α] [Div α] [Neg α] [OfNat α 0] [OfNat α 2]
 
